@@ -32,14 +32,19 @@ impl TalkRunner {
                         HandlerIn::Response(a, r) => {
                             items.push(show_resp(&a, &r));
                             let mut matched = false;
-                            for (rid, src, n) in self.meta.iter_mut() {
-                                if *rid == r.id.0 && *src == a {
-                                    *n += 1;
-                                    matched = true;
-                                    if *n > 1 {
-                                        out.push(format!("!MON C20 second-response-to-one-request rid={}", hx(rid)));
-                                    }
-                                    break;
+                            // (the oldest request with that id from that source that is still unanswered;
+                            // if all were answered, the response is one too many for the first of them)
+                            let pos = self
+                                .meta
+                                .iter()
+                                .position(|(rid, src, n)| *rid == r.id.0 && *src == a && *n == 0)
+                                .or_else(|| self.meta.iter().position(|(rid, src, _)| *rid == r.id.0 && *src == a));
+                            if let Some(j) = pos {
+                                let (rid, _, n) = &mut self.meta[j];
+                                *n += 1;
+                                matched = true;
+                                if *n > 1 {
+                                    out.push(format!("!MON C20 second-response-to-one-request rid={}", hx(rid)));
                                 }
                             }
                             if !matched {
@@ -123,8 +128,15 @@ impl Runner for TalkRunner {
                 };
                 let na = NodeAddress { socket_addr: a, node_id: NodeId::new(&id) };
                 // request ids are unique per source in a real exchange; keep the ledger unambiguous
-                if self.meta.iter().any(|(r, s, _)| *r == ridb && *s == na) {
+                // (a peer may use an id again once its earlier request with that id is done with)
+                let held = self.meta.iter().enumerate().any(|(j, (r, s, _))| {
+                    *r == ridb && *s == na && self.r.talks.get(j).map(|t| t.is_some()).unwrap_or(false)
+                });
+                if held {
                     return noop(out);
+                }
+                if self.meta.iter().any(|(r, s, _)| *r == ridb && *s == na) {
+                    stats.bump("t.request-id-used-again-by-the-same-peer");
                 }
                 let req = Request { id: RequestId(ridb.clone()), body: RequestBody::Talk { protocol: p.clone(), request: q.clone() } };
                 let before = self.r.talks.len();
@@ -304,6 +316,7 @@ pub fn gen_case(rng: &mut Rng, tier: &str, _profile: &str, stats: &mut Stats) ->
     }
     let n = rng.range(6, 40);
     let mut delivered = 0u64;
+    let mut earlier: Vec<(u64, String, String)> = Vec::new();
     let mut shut = false;
     let mapped = rng.chance(1, 5);
     if rng.chance(1, 6) {
@@ -334,6 +347,14 @@ pub fn gen_case(rng: &mut Rng, tier: &str, _profile: &str, stats: &mut Stats) ->
             let proto = hx(&rng.bytes(n));
             let n = rng.below(12) as usize;
             let payload = hx(&rng.bytes(n));
+            // (one request in five repeats the source and the request id of an earlier one - peers whose
+            // ids are a small counter do that; it is a request like any other)
+            let (peer, a, rid) = if !earlier.is_empty() && rng.chance(1, 5) {
+                earlier[rng.below(earlier.len() as u64) as usize].clone()
+            } else {
+                (peer, a, rid)
+            };
+            earlier.push((peer, a.clone(), rid.clone()));
             ops.push(format!("tdeliver k{} {} {} {} {}", peer, a, rid, proto, payload));
             delivered += 1;
         } else if c < 65 {
